@@ -662,7 +662,7 @@ def run_check(sim, prop, tier, verif_seed, n_runs=None, seconds=None, level="exp
                 cmd = [sys.executable, os.path.join(VERIF, "check"), prop, "--tier", tier, "--no-hashseed-selftest"]
                 cmd += ["--runs", str(n_sub)] if n_sub else ["--seconds", str(secs_sub)]
                 envs = dict(os.environ, VERIF_BACKEND=be, VERIF_OUT=tmpo, VERIF_SEED=str(verif_seed),
-                            VERIF_NO_SECONDARY="1")
+                            VERIF_NO_SECONDARY="1", VERIF_IS_SECONDARY="1")
                 sp = subprocess.run(cmd, env=envs, capture_output=True, text=True, timeout=7200)
                 sub_ev = {}
                 try:
@@ -710,8 +710,14 @@ def run_check(sim, prop, tier, verif_seed, n_runs=None, seconds=None, level="exp
     eprint("[%s] runs=%d nontrivial-distinct=%d violations=%d known=%d harness_errors=%d wall=%.1fs"
            % (prop, ok_runs, len(nontrivial), len(reported), len(known_hits), len(harness_errors), wall))
     # reach requirements (a cell stuck at zero is a harness error, not a pass)
-    for msg in sim.reach_failures(prop, fin, tier):
-        harness_errors.append("reach: " + msg)
+    # A secondary batch (another back end / interpreter configuration, a fraction of the main batch's size) is not
+    # held to them: reach is established by the main batch, and a small batch missing a rare cell is luck, not a defect.
+    if os.environ.get("VERIF_IS_SECONDARY"):
+        for msg in sim.reach_failures(prop, fin, tier):
+            eprint("[%s] note (secondary batch, not fatal): reach: %s" % (prop, msg))
+    else:
+        for msg in sim.reach_failures(prop, fin, tier):
+            harness_errors.append("reach: " + msg)
     if reported or sub_viol:
         for e in harness_errors[:10]:
             eprint("HARNESS-ERROR " + e)
